@@ -7,7 +7,9 @@ CONSTANTS ND = 1
  CheckWait = TRUE
  Buffered = TRUE
  ExclTmp = TRUE
+ DirIsEmpty = FALSE
+ ArgCheck = TRUE
  Emit = FALSE
-INVARIANTS P1 P2 P3 P4 P5 TypeOK
+INVARIANTS P1 P2 P3 P4 P5 P6 TypeOK
 PROPERTIES Termination
 CHECK_DEADLOCK FALSE
